@@ -134,4 +134,68 @@ def _own_args(fnode):
     return set(a.posonlyargs + a.args + a.kwonlyargs + ([a.vararg] if a.vararg else []) + ([a.kwarg] if a.kwarg else []))
 
 
-TRANSFORMS = {"rename": renamed_source, "flip": flipped_source, "name": named_cond_source}
+def extracted_source(src: str, fnode: ast.AST) -> str | None:
+    """src with fnode restructured without changing what it computes: every `return <expr>`
+    becomes `ret_k = <expr>` / `return ret_k`; the first argument of a call that is itself a
+    call, an operation or a subscript is given a name on the line before (it is the first thing
+    the call evaluates, so the order of evaluation stays); `x = a if c else b` becomes an
+    `if` statement."""
+    mod = ast.parse(src)
+    target = None
+    for n in ast.walk(mod):
+        if isinstance(n, type(fnode)) and n.lineno == fnode.lineno and n.name == fnode.name:
+            target = n
+    if target is None:
+        return None
+    k = 0
+
+    def simple_callee(f: ast.AST) -> bool:
+        return isinstance(f, ast.Name) or (isinstance(f, ast.Attribute) and simple_callee(f.value))
+
+    def rewrite(body: list[ast.stmt]) -> list[ast.stmt]:
+        nonlocal k
+        out: list[ast.stmt] = []
+        for st in body:
+            for f in ("body", "orelse", "finalbody"):
+                if hasattr(st, f) and isinstance(getattr(st, f), list) and not isinstance(st, (ast.FunctionDef, ast.AsyncFunctionDef, ast.ClassDef)):
+                    setattr(st, f, rewrite(getattr(st, f)))
+            if isinstance(st, ast.Try):
+                for h in st.handlers:
+                    h.body = rewrite(h.body)
+            if any(isinstance(x, (ast.NamedExpr, ast.Yield, ast.YieldFrom, ast.Await)) for x in ast.walk(st)):
+                out.append(st)
+                continue
+            if isinstance(st, ast.Assign) and len(st.targets) == 1 and isinstance(st.targets[0], ast.Name) and isinstance(st.value, ast.IfExp):
+                k += 1
+                t = st.targets[0]
+                out.append(ast.If(test=st.value.test, body=[ast.Assign(targets=[ast.Name(id=t.id, ctx=ast.Store())], value=st.value.body, lineno=st.lineno)],
+                                  orelse=[ast.Assign(targets=[ast.Name(id=t.id, ctx=ast.Store())], value=st.value.orelse, lineno=st.lineno)], lineno=st.lineno))
+                continue
+            val = st.value if isinstance(st, (ast.Assign, ast.Return, ast.Expr)) else None
+            if isinstance(val, ast.Call) and simple_callee(val.func) and val.args and isinstance(val.args[0], (ast.Call, ast.BinOp, ast.Subscript)) \
+                    and not any(isinstance(a, ast.Starred) for a in val.args):
+                k += 1
+                name = f"arg_{k}"
+                out.append(ast.Assign(targets=[ast.Name(id=name, ctx=ast.Store())], value=val.args[0], lineno=st.lineno))
+                val.args[0] = ast.Name(id=name, ctx=ast.Load())
+            if isinstance(st, ast.Return) and st.value is not None and not isinstance(st.value, (ast.Name, ast.Constant)):
+                k += 1
+                name = f"ret_{k}"
+                out.append(ast.Assign(targets=[ast.Name(id=name, ctx=ast.Store())], value=st.value, lineno=st.lineno))
+                st.value = ast.Name(id=name, ctx=ast.Load())
+            out.append(st)
+        return out
+
+    target.body = rewrite(target.body)
+    if not k:
+        return None
+    ast.fix_missing_locations(target)
+    text = ast.unparse(target)
+    first = min([target.lineno] + [d.lineno for d in target.decorator_list])
+    indent = " " * target.col_offset
+    lines = src.splitlines(keepends=True)
+    new = "".join(indent + l + "\n" for l in text.splitlines())
+    return "".join(lines[: first - 1]) + new + "".join(lines[target.end_lineno:])
+
+
+TRANSFORMS = {"rename": renamed_source, "flip": flipped_source, "name": named_cond_source, "extract": extracted_source}
